@@ -43,14 +43,16 @@ Fixpoint asc_b (held : list N) (evs : list tev) : bool :=
 
 (* two-phase around the commit: nothing is released between the start and the end of the journal
    commit, and nothing is acquired after it *)
-Fixpoint commit_phase_b (st : N) (evs : list tev) : bool :=   (* st: 0 before, 1 during, 2 after *)
+Fixpoint commit_phase_b (st : N) (evs : list tev) : bool :=   (* st: 0 before, 1 during, 2 after, 3 after a commit the journal refused *)
   match evs with
   | [] => true
   | (TCommit _ | TFlush) :: r => (st =? 0) && commit_phase_b 1 r
-  | (TCommitted _ | TFlushed _) :: r => (st =? 1) && commit_phase_b 2 r
+  | TCommitted ok :: r => (st =? 1) && commit_phase_b (if ok then 2 else 3) r
+  | TFlushed _ :: r => (st =? 1) && commit_phase_b 2 r
   | TRel _ :: r => negb (st =? 1) && commit_phase_b st r
   | TAcq _ :: r => (st =? 0) && commit_phase_b st r
-  | TAbort :: r => (st =? 0) && commit_phase_b st r
+  (* a transaction is given up before its commit, or after the journal refused the commit (nothing was written) *)
+  | TAbort :: r => ((st =? 0) || (st =? 3)) && commit_phase_b st r
   | TFresh _ :: r => commit_phase_b st r
   end.
 
